@@ -206,7 +206,7 @@ func checkC15(c *Check) {
 			name := fmt.Sprintf("error result of %s in %s", strings.TrimPrefix(callee, "invoke "), fn.Name())
 			pos := p.InstrPos(in)
 			if _, isDefer := in.(*ssa.Defer); isDefer {
-				if strings.HasSuffix(callee, "Reassembler).Close") {
+				if strings.HasSuffix(callee, "Reassembler).Close") || isReassemblerCall(p, cc, "Close") {
 					c.OK("no-error-dropped", name, pos, "allowlisted: deferred Close of the reassembler is the shutdown flush; its only error is 'already closed'")
 				} else if strings.HasSuffix(callee, ".Stop") || strings.HasSuffix(callee, "(*os.File).Close") {
 					c.OK("no-error-dropped", name, pos, "allowlisted: deferred release of a resource")
@@ -232,16 +232,24 @@ func checkC15(c *Check) {
 				}
 			}
 			if ev == nil {
+				if sig.Results().Len() == 1 && nilKind(NewResolver(p), val, in) == IsNil {
+					c.OK("no-error-dropped", name, pos, "the result is nil on every path of the callee at this call site (nothing to drop)")
+					return
+				}
 				c.Bad("no-error-dropped", name, pos, "the error result is discarded: a failure here is skipped silently")
 				return
 			}
 			fl := &errFlow{p: p, seen: map[ssa.Value]bool{}}
 			fl.follow(ev, 0)
-			if strings.HasSuffix(callee, "Reassembler).Maintain") && len(fl.Tested) > 0 {
+			if (strings.HasSuffix(callee, "Reassembler).Maintain") || isReassemblerCall(p, cc, "Maintain")) && len(fl.Tested) > 0 {
 				c.OK("no-error-dropped", name, pos, "allowlisted: Maintain's error (reassembler closed) is tested and ends the maintenance goroutine")
 				return
 			}
 			if len(fl.Returned) == 0 && len(fl.Sent) == 0 {
+				if nilKind(NewResolver(p), ev, in) == IsNil {
+					c.OK("no-error-dropped", name, pos, "the result is nil on every path of the callee at this call site (nothing to drop)")
+					return
+				}
 				why := "the error is neither returned nor sent on an error channel"
 				if fl.Logged {
 					why += " (it is only logged)"
@@ -350,7 +358,7 @@ func parseRule(c *Check, cone *Cone) {
 	npush := 0
 	allInstrs(fn, func(in ssa.Instruction) {
 		if cl, ok := in.(*ssa.Call); ok {
-			if sc := staticCallee(cl.Common()); sc != nil && strings.HasSuffix(sc.String(), "Reassembler).PushMessage") {
+			if sc := staticCallee(cl.Common()); (sc != nil && strings.HasSuffix(sc.String(), "Reassembler).PushMessage")) || isReassemblerCall(p, cl.Common(), "PushMessage") {
 				npush++
 				push = cl
 			}
@@ -360,7 +368,7 @@ func parseRule(c *Check, cone *Cone) {
 		c.Bad("parse-or-stop", "PushMessage in "+fn.Name(), p.Pos(fn.Pos()), "parsed messages are never handed to the reassembler")
 		return
 	}
-	po := r.Of(push.Call.Args[1])
+	po := r.Of(push.Call.Args[len(push.Call.Args)-1])
 	c.Cond(npush == 1 && po.K == "call" && po.V == ssa.Value(parse) && po.Idx == 0, "push-parse-result", "argument of PushMessage in "+fn.Name(), p.InstrPos(push), "exactly the message parsed from the line is pushed, once", "the value pushed to the reassembler is not the parse result of the received line ("+trimOrg(po.String())+"), or it is pushed more than once")
 	// emptiness test
 	var emptyIf *ssa.If
@@ -591,6 +599,33 @@ func handoffRule(c *Check, cone *Cone, read *ssa.Function) {
 					if (ret.Block() == cb || cb.Dominates(ret.Block())) && nilKind(r, ret.Results[0], ret) == NonNil {
 						retOK = true
 					}
+					// single exit: the case assigns the error to a result
+					// variable and leaves the loop; the return yields a phi
+					// whose edges coming from this case carry that error
+					res0 := ret.Results[0]
+					if _, isLoad := res0.(*ssa.UnOp); isLoad {
+						// a result spilled because of defer: what was stored into it
+						if vs := fsValues(res0, ret, nil); len(vs) == 1 && vs[0] != nil {
+							res0 = vs[0]
+						}
+					}
+					if phi, isPhi := res0.(*ssa.Phi); isPhi {
+						viaOK, viaBad := false, false
+						for i, e := range phi.Edges {
+							pred := phi.Block().Preds[i]
+							if pred != cb && !cb.Dominates(pred) {
+								continue
+							}
+							if fl.seen[e] && len(pred.Instrs) > 0 && nilKind(r, e, pred.Instrs[len(pred.Instrs)-1]) == NonNil {
+								viaOK = true
+							} else {
+								viaBad = true
+							}
+						}
+						if viaOK && !viaBad {
+							retOK = true
+						}
+					}
 				}
 				loops := reachesFromBlock(cb, sel)
 				c.Cond(retOK && !loops, "processor-returns-received-error", name, p.InstrPos(sel), "the case returns a non-nil error that wraps the received value", "the processor does not stop with the error it received on this channel (it is logged, dropped or the loop continues)")
@@ -613,4 +648,15 @@ func chanVarName(a *ssa.Alloc) string {
 func describeErrSend(r *Resolver, v ssa.Value) string {
 	o := r.Of(v)
 	return trimOrg(strings.SplitN(o.String(), "@", 2)[0])
+}
+
+
+// isReassemblerCall: a call of method name of go-libaudit's Reassembler,
+// directly or through an interface the Reassembler implements.
+func isReassemblerCall(p *Prog, cc *ssa.CallCommon, name string) bool {
+	obj := p.ExtObj("github.com/elastic/go-libaudit/v2", "Reassembler", name)
+	if obj == nil {
+		return false
+	}
+	return isCalleeObj(cc, obj)
 }
